@@ -2,6 +2,7 @@ use crate::error::Converter;
 use crate::paged_reader::PagedReader;
 use crate::root::root_from_document;
 use crate::root::Root;
+use crate::xml;
 use crate::Blob;
 use crate::DateTime;
 use crate::Error;
@@ -21,6 +22,7 @@ use std::io::Write;
 use std::path::Path;
 
 const MAX_XML_SIZE: usize = 1024 * 1024 * 10;
+const MAX_XML_DEPTH: usize = 256;
 
 /// Main interface for reading E57 files.
 pub struct E57Reader<T: Read + Seek> {
@@ -53,6 +55,11 @@ impl<T: Read + Seek> E57Reader<T> {
             header.xml_length as usize,
         )?;
         let xml = String::from_utf8(xml_raw).read_err("Failed to parse XML as UTF8")?;
+        if xml::max_nesting_depth(&xml) > MAX_XML_DEPTH {
+            Error::invalid(format!(
+                "XML sections with more than {MAX_XML_DEPTH} nested tags are not supported"
+            ))?
+        }
         let document = Document::parse(&xml).invalid_err("Failed to parse XML data")?;
         let root = root_from_document(&document)?;
         let pointclouds = PointCloud::vec_from_document(&document)?;
